@@ -792,7 +792,7 @@ func runC12(c *Ctx, variant int) {
 			d.addPeer([4]byte{}, 0) // ephemeral port
 		}
 	}
-	steps := w.Range(5, 60)
+	steps := w.Range(5, c.Deep(60))
 	for i := 0; i < steps; i++ {
 		s := d.socks[w.Choose(len(d.socks))]
 		switch w.Choose(12) {
